@@ -375,6 +375,17 @@ def _run_processors(paths, inp, lay, limit):
         with time_limit(limit):
             stage = "load"
             ff = load_ff_library("t", None, [Path(p) for p in paths])
+            stage = "history"
+            for names in inp.get("hist", []):
+                # earlier molecules built from the SAME force-field object in this process (chains of the named residues)
+                import networkx as nx
+                hg = nx.Graph()
+                for i, nm in enumerate(names):
+                    hg.add_node(i, resname=nm, resid=i + 1)
+                hg.add_edges_from((i, i + 1) for i in range(len(names) - 1))
+                hm = MetaMolecule(hg, force_field=ff, mol_name="h")
+                MapToMolecule(ff).run_molecule(hm)
+                ApplyLinks().run_molecule(hm)
             stage = "graph"
             mm = MetaMolecule(build_graph(inp, lay), force_field=ff, mol_name="t")
             stage = "map"
@@ -440,13 +451,14 @@ def _run_gen_params(paths, inp, lay, wd, name, limit):
 # --------------------------------------------------------------------------- TLC export helpers
 
 def case_key(inp):
-    return json.dumps([inp["ff"], inp["n"], inp["start"], inp["rn"], inp["fi"], sorted(map(tuple, inp["edges"])), inp["sel"]], sort_keys=True)
+    return json.dumps([inp["ff"], inp["n"], inp["start"], inp["rn"], inp["fi"], sorted(map(tuple, inp["edges"])), inp["sel"], inp.get("hist", [])],
+                      sort_keys=True)
 
 
 def norm_case(case):
     """TLC's JSON: empty sequences / sets may come out as [] or {}; normalise the few places that matter"""
     inp = case["inp"]
-    for k in ("edges", "sel", "rn", "fi"):
+    for k in ("edges", "sel", "rn", "fi", "hist"):
         if isinstance(inp.get(k), dict):
             inp[k] = [inp[k][str(i + 1)] for i in range(len(inp[k]))]
     inp["edges"] = [list(e) for e in inp["edges"]]
@@ -475,9 +487,9 @@ def ffs_of(res):
 # open (unrepaired) findings that FFMap models as deviation flags of DevAsIs; with none open the as-is runs are skipped and
 # every deviation from the P-layer is a violation.  To list one again: add its sig here, its error kind to ERR_FINDING, its
 # flag to DevAsIs in spec/FFMap.tla and a known_findings.d entry.
-OPEN = []
+OPEN = {"C01": [], "C14": ["retag-lowered"]}       # per property; retag-lowered only shows on histories (inp["hist"]) of one force-field object
 ERR_FINDING = {}
-PRIORITY = []
+PRIORITY = ["retag-lowered"]
 
 
 def attribute(fired, err=""):
